@@ -134,12 +134,20 @@ class Network(SimComponent):
     @property
     def extended_hostnodes(self) -> List[Node]:
         """Extended nodes that inherited HostNode in the network."""
-        return [node for node in self.nodes.values() if node.__class__.__name__.lower() in HostNode._registry]
+        return [
+            node
+            for node in self.nodes.values()
+            if isinstance(node, HostNode) and node.__class__.__name__.lower() in HostNode._registry
+        ]
 
     @property
     def extended_networknodes(self) -> List[Node]:
         """Extended nodes that inherited NetworkNode in the network."""
-        return [node for node in self.nodes.values() if node.__class__.__name__.lower() in NetworkNode._registry]
+        return [
+            node
+            for node in self.nodes.values()
+            if isinstance(node, NetworkNode) and node.__class__.__name__.lower() in NetworkNode._registry
+        ]
 
     @property
     def printer_nodes(self) -> List[Node]:
